@@ -26,3 +26,5 @@ python3 tools/derive_unit.py contracts/C44/cached_password.toml contracts/C45/of
   --not-covered "Resolver::pam_account_authenticate_step storing the returned token, the online step's merge of extra keys, cache expiry and refresh (how current the cached record is)"
 python3 tools/derive_unit.py contracts/C27/handler_selection.toml contracts/C33/reauth_session.toml C33 reauth_session 'reauth_intent_ok|reauth_handler_ok' \
   --not-covered "reauth_init (that the session is PrivilegeCapable and its credential id is the one passed here; soft-lock set-up), AuthSession::validate_creds / issue_uat for the Reauth intent (issue_uat: unit privilege_window)"
+python3 tools/derive_unit.py contracts/C02/optimise.toml contracts/C01/optimise.toml C01 optimise 'sem_eq|fr_eq|inner_' \
+  --not-covered "Filter::resolve / resolve_idx (SelfUuid resolution, slope annotation) around optimise; see the C01 units for filter2idl and the entry-level test"
